@@ -5,6 +5,7 @@ package c11
 import (
 	"bytes"
 	"fmt"
+	"strings"
 	"sync"
 
 	"github.com/lugu/qiloop/bus"
@@ -249,7 +250,157 @@ func threadName(i, nCalls int) string {
 	return "local-closer"
 }
 
+// stalled: the peer stopped reading; one call's frame is stuck in a write
+// (finite send buffer) when the connection is closed locally, or when the
+// peer goes away: every call returns, later calls fail, callbacks fire once.
+func stalled() {
+	cc, pc := vnet.NewPair("client", "peer")
+	cc.Cap = 64
+	ep := net.ConnEndPoint(cc) // through the library's own stream wrapper
+	cl := bus.NewClient(bus.NewChannel(ep, bus.DefaultCap()))
+	disc := 0
+	cl.OnDisconnect(func(err error) { disc++ })
+	remote := vrt.ChooseFree(2, "closed by: local Close / the peer") == 1
+	vrt.Explore()
+	returned := make([]bool, 2)
+	var workers []*vrt.Thread
+	for i := 0; i < 2; i++ {
+		i := i
+		workers = append(workers, vrt.GoWorker(fmt.Sprintf("caller%d", i), func() {
+			_, err := cl.Call(nil, 3, 1, uint32(100+i), make([]byte, 200))
+			returned[i] = true
+			if err == nil {
+				vrt.Failf("reply-from-nowhere", "call %d succeeded although the peer never answers", i)
+			}
+		}))
+	}
+	vrt.Quiesce() // the second frame is stuck in Write: the peer does not read
+	stuck := false
+	for _, b := range vrt.Snapshot() {
+		if b.Kind == vrt.KIO && strings.HasPrefix(b.Label, "write ") {
+			stuck = true
+		}
+	}
+	if stuck {
+		vrt.Flag("write-stalled")
+	}
+	closer := vrt.GoWorker("closer", func() {
+		if remote {
+			pc.Close()
+		} else {
+			ep.Close()
+		}
+	})
+	vrt.Quiesce()
+	if !closer.Done() {
+		vrt.Failf("hang/closer", "closing the connection while a write is stalled never returns: blocked on %s", closer.BlockedOn())
+	}
+	for i, w := range workers {
+		if !w.Done() {
+			vrt.Failf(fmt.Sprintf("hang/caller%d", i), "call %d still blocked on %s after the connection was closed (a write was stalled: %v)", i, w.BlockedOn(), stuck)
+		}
+	}
+	late := vrt.GoWorker("late-caller", func() {
+		if _, err := cl.Call(nil, 3, 1, 100, []byte{1}); err == nil {
+			vrt.Failf("late-call-succeeded", "a call issued after the connection was lost returned success")
+		}
+	})
+	vrt.Quiesce()
+	if !late.Done() {
+		vrt.Failf("hang/late-caller", "a call issued after the connection was lost blocks on %s", late.BlockedOn())
+	}
+	if disc != 1 {
+		vrt.Failf(fmt.Sprintf("disconnect-callback-count/%d", disc), "the disconnect callback ran %d times", disc)
+	}
+	for _, lw := range vrt.LockWaiters() {
+		vrt.Failf("deadlock/"+lw.Kind, "thread %s blocked on %s", lw.Thread, lw.Label)
+	}
+	vrt.Observe("remote=%v stuck=%v", remote, stuck)
+}
+
+// cancelRace: a subscription is cancelled at the very moment the connection
+// is lost (by another goroutine, or from a disconnect callback): its channel
+// is closed in every case, the callbacks fire once, nothing panics.
+func cancelRace() {
+	cc, pc := vnet.NewPair("client", "peer")
+	pl := &peerLog{replyEnd: map[uint32]int{}, argOf: map[uint32]byte{}}
+	vrt.GoNamed("peer", func() { peer(pc, pl, false) })
+	ep := net.ConnEndPoint(cc)
+	cl := bus.NewClient(bus.NewChannel(ep, bus.DefaultCap()))
+	fromCallback := vrt.ChooseFree(2, "cancel from: another goroutine / a disconnect callback") == 1
+	how := vrt.ChooseFree(3, "connection lost by: peer close / local Close / read error")
+	cancel, ch, err := cl.Subscribe(3, 1, 77)
+	if err != nil {
+		vrt.Failf("subscribe-error", "%v", err)
+		return
+	}
+	subClosed := false
+	drain := vrt.GoNamed("subscriber", func() {
+		for range ch {
+		}
+		subClosed = true
+	})
+	disc := 0
+	cl.OnDisconnect(func(err error) {
+		disc++
+		if fromCallback {
+			cancel()
+		}
+	})
+	if how == 2 {
+		n := 0
+		cc.OnOp = func(op string, idx int) *vnet.Fault {
+			if op == "read" {
+				n++
+				if n == 2 {
+					return &vnet.Fault{Kind: "err"}
+				}
+			}
+			return nil
+		}
+	}
+	vrt.Explore()
+	var ws []*vrt.Thread
+	if !fromCallback {
+		ws = append(ws, vrt.GoWorker("canceller", func() { cancel() }))
+	}
+	ws = append(ws, vrt.GoWorker("loser", func() {
+		switch how {
+		case 0:
+			pc.Close()
+		case 1:
+			ep.Close()
+		case 2:
+			cl.Call(nil, 3, 1, 100, []byte{1}) // traffic: the second read fails
+		}
+	}))
+	vrt.Quiesce()
+	for i, w := range ws {
+		if !w.Done() {
+			vrt.Failf(fmt.Sprintf("hang/worker%d", i), "still blocked on %s", w.BlockedOn())
+		}
+	}
+	if how == 2 && cc.FaultAt < 0 {
+		pc.Close()
+		vrt.Quiesce()
+	}
+	if !subClosed {
+		vrt.Failf("subscription-not-closed", "the subscription was cancelled while the connection was being lost (variant %d, from callback %v) and its channel is still open; subscriber blocked on %s", how, fromCallback, drain.BlockedOn())
+	}
+	if disc != 1 {
+		vrt.Failf(fmt.Sprintf("disconnect-callback-count/%d", disc), "the disconnect callback ran %d times", disc)
+	}
+	for _, lw := range vrt.LockWaiters() {
+		vrt.Failf("deadlock/"+lw.Kind, "thread %s blocked on %s", lw.Thread, lw.Label)
+	}
+	vrt.Observe("how=%d cb=%v", how, fromCallback)
+}
+
 func init() {
+	reg.Register(&reg.Scenario{Property: "C11", Name: "stalled-write-then-close", Body: stalled, Quick: 1, Thorough: 3,
+		Doc: "the peer stopped reading: with a finite send buffer the second of two calls is stuck in its write when the connection is closed locally or by the peer: both calls return errors, later calls fail, the callback fires once", MustFlag: []string{"write-stalled"}})
+	reg.Register(&reg.Scenario{Property: "C11", Name: "cancel-during-connection-loss", Body: cancelRace, Quick: 2, Thorough: 3,
+		Doc: "a subscription is cancelled (by a goroutine or from a disconnect callback) while the connection is lost (peer close / local Close / read error): its channel is closed, callbacks fire once"})
 	reg.Register(&reg.Scenario{Property: "C11", Name: "waiting-disconnect-callback", Body: body(2, true, false, true), Quick: 1, Thorough: 2,
 		Doc: "2 concurrent calls + subscription; the first OnDisconnect callback waits for the calls in flight to return; every fault kind at every I/O operation", MustFlag: []string{"fault-fired:eof"}})
 	reg.Register(&reg.Scenario{Property: "C11", Name: "one-call", Body: body(1, false, false, false), Quick: 2, Thorough: 4,
